@@ -223,7 +223,29 @@ func (r *RNG) coef1() (*big.Int, string) {
 		return new(big.Int).SetUint64(r.U64()), "u64"
 	case 9:
 		return new(big.Int).SetUint64(r.U64() >> uint(r.Intn(64))), "u64s"
-	case 10, 11, 12:
+	case 12:
+		// binary image special: a multiple of 2^64 (low word zero), optionally times 10^j or plus a few decimal
+		// digits, so that some intermediate quotient by a power of ten is again a multiple of 2^64
+		m := new(big.Int).SetUint64(r.U64() >> uint(r.Range(15, 63)))
+		if m.Sign() == 0 {
+			m.SetInt64(1)
+		}
+		c := new(big.Int).Lsh(m, 64)
+		for j := r.Intn(16); j > 0; j-- {
+			t := new(big.Int).Mul(c, ref.Ten)
+			if r.Chance(1, 4) {
+				t.Add(t, big.NewInt(int64(r.Intn(10))))
+			}
+			if t.Cmp(ref.Cmax) > 0 {
+				break
+			}
+			c = t
+		}
+		if c.Cmp(ref.Cmax) > 0 {
+			c.Rsh(c, 20)
+		}
+		return c, "k·2^64·10^j"
+	case 10, 11:
 		n := r.Range(1, 35)
 		return r.Digits(n), "ndigit"
 	case 13:
